@@ -405,6 +405,14 @@ func (c *TermCtx) Ite(cond, a, b *Term) *Term {
 	if cond.Op == "not" {
 		return c.Ite(cond.Args[0], b, a)
 	}
+	// ite(c1, x, ite(c2, x, z)) = ite(c1 or c2, x, z)
+	if b.Op == "ite" && b.Args[1] == a && b.Args[0] != cond {
+		return c.Ite(c.Or(cond, b.Args[0]), a, b.Args[2])
+	}
+	// ite(c1, ite(c2, x, y), y) = ite(c1 and c2, x, y)
+	if a.Op == "ite" && a.Args[2] == b && a.Args[0] != cond {
+		return c.Ite(c.And(cond, a.Args[0]), a.Args[1], b)
+	}
 	// ite(c, x, ite(c, y, z)) = ite(c, x, z)
 	if b.Op == "ite" && b.Args[0] == cond {
 		return c.Ite(cond, a, b.Args[2])
